@@ -1382,13 +1382,20 @@ fn run_rect<T: Num>(sh: &mut Shard, st: &mut Stats, h: &RectHist, verbose: bool)
                         break;
                     }
                     (false, Err(_)) => {
-                        // documented panic. The state after the caught panic is logged, not judged.
+                        // documented panic. A Rect that is still reachable afterwards (the call was made through `&mut`, the
+                        // panic caught) is part of "any sequence of public mutator calls": it must still satisfy min <= max
+                        // (finite operands only: with a NaN bound no order holds or fails)
                         st.bump(if is_min { "set_min:invalid_panics(as documented)" } else { "set_max:invalid_panics(as documented)" });
                         let r = host.as_ref().unwrap().get();
-                        let bad = !(r.min().x <= r.max().x && r.min().y <= r.max().y);
-                        st.bump(if bad { "rect.after_caught_panic:min>max(logged,not judged)" } else { "rect.after_caught_panic:state_valid" });
+                        let finite = [r.min().x, r.min().y, r.max().x, r.max().y].iter().all(|v| *v == *v);
+                        let bad = finite && !(r.min().x <= r.max().x && r.min().y <= r.max().y);
+                        evals += 1;
+                        st.bump(if bad { "rect.after_caught_panic:min>max" } else { "rect.after_caught_panic:state_valid" });
                         if verbose {
-                            println!("   documented panic; state after the caught panic: min {} max {} (not judged); history ends", rtext(&[r.min()]), rtext(&[r.max()]));
+                            println!("   documented panic; state after the caught panic: min {} max {}; history ends", rtext(&[r.min()]), rtext(&[r.max()]));
+                        }
+                        if bad {
+                            failed = Some((i, Fail { check: "rect.min_le_max_after_caught_panic", ring: String::new(), expected: "min <= max in both components (the rejected bound is not kept)".into(), got: format!("min {} max {}", rtext(&[r.min()]), rtext(&[r.max()])) }));
                         }
                         break;
                     }
